@@ -248,7 +248,8 @@ class Data(Container, NetCDFHDF5, Files, core.Data):
         """
         try:
             shape = self.shape
-        except AttributeError:
+        except (AttributeError, ValueError):
+            # No array has been set
             shape = ""
         else:
             shape = str(shape)
@@ -1723,7 +1724,7 @@ class Data(Container, NetCDFHDF5, Files, core.Data):
 
         out = []
         out.append(
-            f"{name}{namespace}{self.__class__.__name__}({array}{units}"
+            f"{name}{namespace}{self.__class__.__name__}({array!r}{units}"
             f"{calendar}, dtype={dtype!r}{mask}{fill_value})"
         )
 
